@@ -3,11 +3,38 @@
    n = grid size, k = cropped kernel size, L = buflen n k = FFT buffer size,
    x = data, kap = cropped kernel, all for one axis; no bound on any of them. *)
 From Coq Require Import ZArith List Bool Lia QArith Qminmax Qabs Reals.
-From NV.C18 Require Import Model ModelR Proofs1 Proofs2 Proofs3 ProofsR.
+From NV.Generated Require Import KernelSmooth.
+From NV.C18 Require Import Model ModelR Proofs1 Proofs2 Proofs3 Proofs4 ProofsR Source.
 Import ListNotations.
 Close Scope Q_scope.
 Close Scope R_scope.
 Open Scope Z_scope.
+
+(* (0) Tie to the source: the index formulas and constants translated from
+   kernel_smooth.py on this run (NV.Generated.KernelSmooth: vox_center,
+   self.shape, the output slicer, the cut, the crop tolerance, the fwhm guard,
+   the buffer origins, scale-then-location, the conversion constants) are the
+   ones of the model, for every n and k. *)
+Theorem source_index_formulas_are_model :
+  forall n k, src_centre n = centre n /\ src_buflen n k = buflen n k /\
+              src_win_start n k = win_start k /\ src_win_stop n k = win_stop n k.
+Proof.
+  intros n k. split; [apply src_centre_ok|split; [apply src_buflen_ok|apply src_window_ok]].
+Qed.
+Print Assumptions source_index_formulas_are_model.
+
+Theorem source_constants_are_model :
+  src_cut = cut /\ src_tol = tol /\ src_half = 2%Q /\ src_fwhm_guard = 1%Q /\
+  src_kernel_origin = 0 /\ src_data_origin = 0.
+Proof. exact src_constants_ok. Qed.
+Print Assumptions source_constants_are_model.
+
+Theorem source_conversions_are_model :
+  forall f : R,
+  fwhm2sigma f = (f / sqrt (IZR src_f2s_a * ln (IZR src_f2s_b)))%R /\
+  sigma2fwhm f = (f * sqrt (IZR src_s2f_a * ln (IZR src_s2f_b)))%R.
+Proof. exact src_conversions_ok. Qed.
+Print Assumptions source_conversions_are_model.
 
 (* (1) The FFT buffer: even (so irfftn returns L samples, not L-1), at least
    n + k + 2 long, and the returned window [k//2, n + k//2) lies inside it and
@@ -39,6 +66,27 @@ Theorem circular_equals_linear_general :
   (circ L (pad n x) (pad k kap) t == lin n k x kap t)%Q.
 Proof. exact circ_eq_lin. Qed.
 Print Assumptions circular_equals_linear_general.
+
+(* the same on the 3-D buffer the code really uses (per-axis lemma on each axis) *)
+Theorem circular_equals_linear_3d :
+  forall n1 n2 n3 k1 k2 k3 x kap t1 t2 t3,
+  1 <= n1 -> 1 <= n2 -> 1 <= n3 -> 1 <= k1 -> 1 <= k2 -> 1 <= k3 ->
+  0 <= t1 < buflen n1 k1 -> 0 <= t2 < buflen n2 k2 -> 0 <= t3 < buflen n3 k3 ->
+  (circ3 (buflen n1 k1) (buflen n2 k2) (buflen n3 k3) (pad3 n1 n2 n3 x) (pad3 k1 k2 k3 kap) t1 t2 t3
+   == lin3 n1 n2 n3 k1 k2 k3 x kap t1 t2 t3)%Q.
+Proof.
+  intros. apply circ3_eq_lin3; try assumption; apply buflen_nowrap.
+Qed.
+Print Assumptions circular_equals_linear_3d.
+
+Theorem smooth3_is_direct_convolution :
+  forall n1 n2 n3 k1 k2 k3 x kap scale loc p1 p2 p3,
+  1 <= n1 -> 1 <= n2 -> 1 <= n3 -> 1 <= k1 -> 1 <= k2 -> 1 <= k3 ->
+  0 <= p1 < n1 -> 0 <= p2 < n2 -> 0 <= p3 < n3 ->
+  (smooth3 n1 n2 n3 k1 k2 k3 x kap scale loc p1 p2 p3 ==
+   scale * (lin3 n1 n2 n3 k1 k2 k3 x kap (p1 + k1 / 2) (p2 + k2 / 2) (p3 + k3 / 2) / l1sum3 k1 k2 k3 kap) + loc)%Q.
+Proof. exact smooth3_direct. Qed.
+Print Assumptions smooth3_is_direct_convolution.
 
 Theorem smooth_is_direct_convolution :
   forall n k x kap scale loc p, 1 <= n -> 1 <= k -> 0 <= p < n ->
